@@ -469,8 +469,11 @@ impl C05 {
             };
             if ca.nq != cb.nq {
                 let alg = if sha384 { rdfc_ref::Alg::Sha384 } else { rdfc_ref::Alg::Sha256 };
-                let nalt = rdfc_ref::alt_docs(&a, alg, BUDGET, 60).len();
-                let sig = if multi_graph_trigger(&a) { AMBIGUOUS.to_string() } else { format!("c14n/depends-on-labels-or-order/{trig}") };
+                // the recorded finding covers a dataset only if RDFC-1.0 itself (the harness's reference)
+                // is label-dependent on it; a dataset with the trigger on which the reference assigns
+                // one document to every relabelled copy is a deviation of the implementation
+                let nalt = rdfc_ref::alt_docs(&a, alg, BUDGET, 200).len();
+                let sig = if multi_graph_trigger(&a) && nalt != 1 { AMBIGUOUS.to_string() } else { format!("c14n/depends-on-labels-or-order/{trig}") };
                 ctx.fail(
                     sig,
                     format!(
@@ -543,8 +546,8 @@ impl C05 {
             if same != truth {
                 let sig = if truth { "c14n/isomorphic-but-different-output" } else { "c14n/not-isomorphic-but-same-output" };
                 let alg = if sha384 { rdfc_ref::Alg::Sha384 } else { rdfc_ref::Alg::Sha256 };
-                let _ = alg;
-                let sig = if truth && multi_graph_trigger(&a) { AMBIGUOUS.to_string() } else { format!("{sig}/{kind}/{trig}") };
+                let ambiguous = truth && multi_graph_trigger(&a) && rdfc_ref::alt_docs(&a, alg, BUDGET, 200).len() != 1;
+                let sig = if ambiguous { AMBIGUOUS.to_string() } else { format!("{sig}/{kind}/{trig}") };
                 ctx.fail(
                     sig,
                     format!("[{h}] exact isomorphism search says {truth}, byte equality of canonical forms says {same}\n A:\n{}\n B:\n{}\n c14n(A):\n{}\n c14n(B):\n{}", show_quads(&a), show_quads(&b), ca.nq, cm.nq),
